@@ -57,6 +57,7 @@ fn main() {
         "c03-twin" => c03::twin_leg(&args),
         "c04-pipeline" => c04::pipeline_leg(&args),
         "c04-malformed" => c04::malformed_leg(&args),
+        "c04-reuse" => c04::reuse_leg(&args),
         "c05-txn" => c05::txn_leg(&args),
         "c05-atomic" => c05::atomic_leg(&args),
         "c17-unchanged" => c17::leg(&args),
